@@ -285,6 +285,13 @@ pub fn exec(line: &str) -> String {
             }
             p_c09(k.parse().unwrap_or(1), &srcs)
         }
+        ["p_readd", k, idx, rest @ ..] => {
+            let mut srcs = Vec::new();
+            for h in rest {
+                srcs.push(text!(h));
+            }
+            p_readd(k.parse().unwrap_or(1), idx.parse().unwrap_or(0), &srcs)
+        }
         ["p_cycle", rest @ ..] => {
             let mut srcs = Vec::new();
             for h in rest {
@@ -795,6 +802,25 @@ fn p_c09(k: usize, srcs: &[String]) -> String {
         out.push_str(&sexp(&s).replace(' ', "_"));
     }
     out
+}
+
+/// C09 for ONE document of a (long) history: the document at `idx` is re-fed k times; same answer format as `p_c09`
+fn p_readd(k: usize, idx: usize, srcs: &[String]) -> String {
+    let Ok(base) = JsonShape::from_sources(srcs) else { return "skip".into() };
+    let Some(d) = srcs.get(idx) else { return "skip".into() };
+    let mut hh = srcs.to_vec();
+    let mut prev: Option<JsonShape> = None;
+    for rep in 0..k {
+        hh.push(d.clone());
+        let Ok(s) = JsonShape::from_sources(&hh) else { return "violated: from_sources failed on a repetition".into() };
+        if let Some(p) = &prev {
+            if *p != s {
+                return format!("violated: shape still changing at repetition {}: {} -> {}", rep + 1, sexp(p), sexp(&s));
+            }
+        }
+        prev = Some(s);
+    }
+    format!("ok {} {}", sexp(&base).replace(' ', "_"), sexp(&prev.unwrap()).replace(' ', "_"))
 }
 
 /// size (length of the printed s-expression) of the shape of a group of documents fed 2, 4, 8 and 16 times
